@@ -365,7 +365,51 @@ func c22(c *an.Check) {
 		}
 	}
 	c.Require(bad == "", "PTRCMP", "signaling server epoch announcement compares epoch values", h.sess, "", nPtr+1, "no comparison of pointers into the shared epoch field", bad)
+	// ... and a comparison of two dereferenced epoch pointers must not be able to read one and the same variable on both
+	// sides (a "previous" pointer that aliases the "current" cell never differs): a shared target is only acceptable when it
+	// is allocated inside the loop (a fresh cell per iteration).
+	nDeref, alias := 0, ""
+	for _, b := range h.sess.Blocks {
+		for _, ins := range b.Instrs {
+			bo, ok := ins.(*ssa.BinOp)
+			if !ok || (bo.Op != token.EQL && bo.Op != token.NEQ) {
+				continue
+			}
+			lx, okx := bo.X.(*ssa.UnOp)
+			ly, oky := bo.Y.(*ssa.UnOp)
+			if !okx || !oky || lx.Op != token.MUL || ly.Op != token.MUL {
+				continue
+			}
+			if _, isPtr := lx.X.Type().Underlying().(*types.Pointer); !isPtr {
+				continue
+			}
+			if lx.X.Type().String() != "*uint64" {
+				continue
+			}
+			nDeref++
+			sx, sy := waitSources(p, lx.X), waitSources(p, ly.X)
+			loop := an.InnermostLoop(h.sess, b)
+			for _, a := range sx {
+				al, isAlloc := a.(*ssa.Alloc)
+				if !isAlloc {
+					continue
+				}
+				for _, bb := range sy {
+					if bb == a && (loop == nil || !loop[al.Block()]) {
+						alias = fmt.Sprintf("the comparison at %s dereferences two pointers that can both point at the single variable allocated at %s (outside the loop): the saved epoch aliases the current one and never differs", p.Pos(bo.Pos()), p.Pos(al.Pos()))
+					}
+				}
+			}
+		}
+	}
+	c.Require(alias == "" && nDeref >= 1, "PTRCMP", "signaling server saved epoch does not alias the current epoch variable", h.sess, "", nDeref, "the compared cells are distinct per loop iteration", func() string {
+		if alias != "" {
+			return alias
+		}
+		return "no value comparison of the saved and current epoch found (anchor drift)"
+	}())
 	// (d) the Opened announcement carries an epoch value read under the lock (covered by LOCKSET on seqno, incl. pointer dereferences)
+	releaseGates(c, "session")
 	serverLockset(c)
 	c.Note("not decided: the full announcement-order history over all interleavings")
 }
@@ -397,6 +441,7 @@ func c23(c *an.Check) {
 	ownCheck(c)
 	// the attach-order rule (shared with C22): a peer that has just attached must evaluate the session state before sleeping
 	c22AttachOrder(c, h)
+	releaseGates(c, "both")
 	serverLockset(c)
 	clientLockset(c)
 	c.Note("liveness itself (fairness, eventual delivery) is not statically decidable; in particular the client Send stall after a re-open with a message in flight (DESIGN D6) is not detected by these rules")
@@ -517,8 +562,24 @@ func c24(c *an.Check) {
 				}
 			}
 		}
+		var cleanup *ssa.Function
+		for _, d := range deferredClosures(h.sess) {
+			cleanup = d
+		}
+		if cleanup != nil {
+			stillMe := an.FactReq("this call is still the registered peer", func(s *an.State, x, y ssa.Value, r an.Rel) bool {
+				a, isAlloc := y.(*ssa.Alloc)
+				return r == an.EQ && isAlloc && isNamedPtr(a.Type(), "sessionPeerTracker")
+			})
+			c.Gate(an.GateSpec{Construct: "signaling server Session cleanup withdraws the want", Fn: cleanup,
+				Sink: func(s *an.State, ins ssa.Instruction) bool {
+					call, ok := ins.(*ssa.Call)
+					return ok && an.BuiltinName(call) == "delete" && an.IsFieldLoad(call.Call.Args[0], wantF)
+				}, Reqs: []an.Req{stillMe}})
+		}
 		c.Require(nAdd == 1 && nDel == 1, "MUSTCALL", "signaling server Session registers its want and withdraws it on exit", h.sess, "", nAdd+nDel, "one insert on attach, one delete in the deferred cleanup", fmt.Sprintf("expected one insert and one delete of wantPeers in Session, found %d/%d", nAdd, nDel))
 	}
+	releaseGates(c, "peer")
 	serverLockset(c)
 }
 
@@ -683,7 +744,17 @@ func c25(c *an.Check) {
 			},
 			Reqs: []an.Req{{Name: "this call is still the registered one (tracker identity and nonce / peer slot)", Holds: func(s *an.State, at ssa.Instruction) bool {
 				if name == "Listen" {
-					return s.AnyFact(func(s *an.State, x, y ssa.Value, r an.Rel) bool { return r == an.EQ && an.IsFieldLoad(x, nonceF) })
+					nonceEq := s.AnyFact(func(s *an.State, x, y ssa.Value, r an.Rel) bool { return r == an.EQ && an.IsFieldLoad(x, nonceF) })
+					// the tracker currently registered for the peer is the very tracker this call attached to
+					sameTkr := s.AnyFact(func(s *an.State, x, y ssa.Value, r an.Rel) bool {
+						lk, isLk := x.(*ssa.Lookup)
+						if r != an.EQ || !isLk || !an.IsFieldLoad(lk.X, peersF) {
+							return false
+						}
+						_, isConst := y.(*ssa.Const)
+						return !isConst
+					})
+					return nonceEq && sameTkr
 				}
 				// Session: *currLocalPeer == ourPeerTkr
 				return s.AnyFact(func(s *an.State, x, y ssa.Value, r an.Rel) bool {
@@ -695,6 +766,40 @@ func c25(c *an.Check) {
 				unlocked := s.Executed(at, func(i ssa.Instruction) bool { return isMtxCall(i, mtx, "Unlock") })
 				return locked && !unlocked
 			}}}})
+	}
+	// the peer tracker released by Session's cleanup is the destination's (the one it registered its want on)
+	{
+		var cleanup *ssa.Function
+		for _, d := range deferredClosures(h.sess) {
+			cleanup = d
+		}
+		okRel, why := false, "cleanup / get-or-create call not found"
+		if cleanup != nil {
+			st := p.NewState(cleanup)
+			var getArg ssa.Value
+			for _, b := range h.sess.Blocks {
+				for _, ins := range b.Instrs {
+					if call, ok := ins.(*ssa.Call); ok {
+						if f, ok := call.Call.Value.(*ssa.Function); ok && f.Name() == "getPeer" {
+							getArg = call.Call.Args[1]
+						}
+					}
+				}
+			}
+			for _, b := range cleanup.Blocks {
+				for _, ins := range b.Instrs {
+					if call, ok := ins.(*ssa.Call); ok {
+						if f, ok := call.Call.Value.(*ssa.Function); ok && f.Name() == "maybeReleasePeer" && getArg != nil {
+							okRel = st.Key(call.Call.Args[1]) == p.Key(getArg) || st.Key(st.Canon(call.Call.Args[1])) == st.Key(getArg)
+							if !okRel {
+								why = "the peer released on exit is not the peer whose tracker this call obtained (its destination)"
+							}
+						}
+					}
+				}
+			}
+		}
+		c.Require(okRel, "PROVENANCE", "signaling server Session releases the tracker of its destination peer", h.sess, "", 1, "maybeReleasePeer(dst) with dst = the id passed to getPeer", why)
 	}
 	// Session returns ErrUserpedSession when it is no longer the registered peer
 	c.ErrProp(an.ErrPropSpec{Construct: "signaling server Session ends when usurped", Fn: h.sess, ErrIdx: -1, Failing: func(s *an.State) (bool, string) {
@@ -795,6 +900,7 @@ func c25(c *an.Check) {
 			return "p1 >= p2 but the key is not (p2,p1) with flag false"
 		})
 	}
+	releaseGates(c, "both")
 	serverLockset(c)
 }
 
@@ -815,6 +921,65 @@ func init() {
 		Explain:     "Decides on SSA: an older Listen returns an error once the tracker's nonce differs from the one it registered, and a new Listen bumps the nonce of an existing tracker before unlocking; Session returns an error once its peer slot holds another call; both deferred cleanups call the release helpers only when still the registered call and under Server.mtx; peers/sessions maps are mutated only through get-or-create / maybe-release helpers (WHO); a session tracker is deleted only when both slots are empty; (ROLE) the session key is the (min,max) ordered pair under strings.Compare with a flag telling the caller's side; LOCKSET.",
 		NotCov:      "emptiness of the maps at quiescence for all histories.",
 		Assumptions: commonAssumptions})
+}
+
+// releaseGates decides the two tracker-release predicates of the signaling server: a session tracker is dropped only when
+// neither endpoint is attached, a peer tracker only when it neither listens nor is wanted by anyone.
+func releaseGates(c *an.Check, which string) {
+	p := c.P
+	fieldLoads := func(fn *ssa.Function, f *types.Var) []ssa.Value {
+		var out []ssa.Value
+		for _, b := range fn.Blocks {
+			for _, ins := range b.Instrs {
+				if u, ok := ins.(*ssa.UnOp); ok && u.Op == token.MUL && an.IsFieldLoad(u, f) {
+					out = append(out, u)
+				}
+			}
+		}
+		return out
+	}
+	some := func(vs []ssa.Value, pred func(ssa.Value) bool) bool {
+		for _, v := range vs {
+			if pred(v) {
+				return true
+			}
+		}
+		return false
+	}
+	isDeleteOn := func(f *types.Var) func(*an.State, ssa.Instruction) bool {
+		return func(s *an.State, ins ssa.Instruction) bool {
+			call, ok := ins.(*ssa.Call)
+			return ok && an.BuiltinName(call) == "delete" && an.IsFieldLoad(call.Call.Args[0], f)
+		}
+	}
+	if which == "session" || which == "both" {
+		fn := p.Func("signaling/rpc/server", "Server", "maybeReleaseSession")
+		sessF := fv(c, "signaling/rpc/server", "Server", "sessions")
+		aF, bF := fv(c, "signaling/rpc/server", "sessionTracker", "peerA"), fv(c, "signaling/rpc/server", "sessionTracker", "peerB")
+		if fn == nil || sessF == nil || aF == nil || bF == nil {
+			c.Undecided("GATE", "signaling server maybeReleaseSession", nil, "unresolved anchor")
+		} else {
+			c.Gate(an.GateSpec{Construct: "signaling server drops a session tracker", Fn: fn, Sink: isDeleteOn(sessF), Reqs: []an.Req{
+				{Name: "endpoint A detached", Holds: func(s *an.State, at ssa.Instruction) bool { return some(fieldLoads(fn, aF), s.IsNil) }},
+				{Name: "endpoint B detached", Holds: func(s *an.State, at ssa.Instruction) bool { return some(fieldLoads(fn, bF), s.IsNil) }},
+			}})
+		}
+	}
+	if which == "peer" || which == "both" {
+		fn := p.Func("signaling/rpc/server", "Server", "maybeReleasePeer")
+		peersF := fv(c, "signaling/rpc/server", "Server", "peers")
+		lF, wF := fv(c, "signaling/rpc/server", "serverPeerTracker", "listening"), fv(c, "signaling/rpc/server", "serverPeerTracker", "wantPeers")
+		if fn == nil || peersF == nil || lF == nil || wF == nil {
+			c.Undecided("GATE", "signaling server maybeReleasePeer", nil, "unresolved anchor")
+		} else {
+			c.Gate(an.GateSpec{Construct: "signaling server drops a peer tracker", Fn: fn, Sink: isDeleteOn(peersF), Reqs: []an.Req{
+				{Name: "no Listen call attached", Holds: func(s *an.State, at ssa.Instruction) bool { return some(fieldLoads(fn, lF), s.IsFalse) }},
+				an.FactReq("nobody wants this peer (len(wantPeers)==0)", func(s *an.State, x, y ssa.Value, r an.Rel) bool {
+					return r == an.EQ && an.IsIntConst(y, 0) && an.LenOf(s, x, func(a ssa.Value) bool { return an.IsFieldLoad(a, wF) })
+				}),
+			}})
+		}
+	}
 }
 
 func ownCheck(c *an.Check) {
